@@ -128,6 +128,8 @@ pub struct HState {
     /// overrides of the font quantities behind the units `em` and `ex`
     pub em_width: Option<common::Scaled>,
     pub ex_height: Option<common::Scaled>,
+    /// the font the VM last announced through `enable_font_hook` (0 = \nullfont, the initial font)
+    pub hook_font: i64,
 }
 
 impl HState {
@@ -150,6 +152,9 @@ impl TexlangState for HState {
     #[inline]
     fn end_line_char(&self) -> Option<char> {
         endlinechar::end_line_char(self)
+    }
+    fn enable_font_hook(&mut self, font: types::Font) {
+        self.hook_font = font.0 as i64;
     }
     fn em_width(&self) -> common::Scaled {
         self.em_width.unwrap_or(common::Scaled::ONE * 12)
@@ -362,6 +367,11 @@ fn vpcapture_fn(_t: Token, input: &mut vm::ExecutionInput<HState>) -> txl::Resul
 fn vpfont_fn(_t: Token, input: &mut vm::ExecutionInput<HState>) -> txl::Result<()> {
     let f = input.vm().current_font();
     input.state_mut().out.push(OutTok::Probe(0, f.0 as i64));
+    // the state must have been told about every change of the current font (selection and restore)
+    let h = input.state().hook_font;
+    if h != f.0 as i64 {
+        input.state_mut().out.push(OutTok::Probe(9, h));
+    }
     Ok(())
 }
 
